@@ -184,6 +184,7 @@ CHECKS = {
     },
     "C08": {
         "test": "TestC08",
+        "race_tier": {"test": "TestC08Free", "race": True, "budget": {"quick": 6, "thorough": 120}},
         "level": "exploration",
         "budget": {"quick": 45, "thorough": 900},
         "rule": ("each evaluation is a chain of 1-3 (thorough: 1-6) diffs: files are seeded selections (some records twice, changing subnet sets) from a "
@@ -193,7 +194,7 @@ CHECKS = {
                  "operation) at a seeded position, a failing low-level RocksDB call, or a reader error mid-diff - the call must fail and the dump must "
                  "equal the dump before. One chain in three (of those with two or more steps) sends all its diffs through ONE open updater, as a long-running publisher does; "
                  "intermediate states are then read through that handle, and after the final Close the directory is read again and must still be the database of the last delivered file. "
-                 "Non-trivial = a non-empty diff was applied; distinct = pool seed + first selection + layout."),
+                 "A free-running tier (race_tier block) updates two databases with two diffs at once in one process under the race detector. Non-trivial = a non-empty diff was applied; distinct = pool seed + first selection + layout."),
         "components": {
             "real": ["rdb.ApplyDiff, dbdiff.Entry parsing/conversion, Batch integrate, value-list codec", "dnsdata preprocessor", "rdb.Compile (builder) for the start and the expected databases", "RocksDB (cgo)"],
             "stub": ["error-injecting wrapper around the updater's rdb.DBI"],
